@@ -197,20 +197,22 @@ theorem genAlter_same_cell (n : Nat) (opt : Opt) (H : Heap) (r : Ref) (t : T) (S
   obtain ⟨H1, r1, hc1, hl, _, _, _, had⟩ := alter_spec .genAlter rfl n opt H r t S hoe hd hS hnd hs hk
   exact ⟨H1, r1, hc1, had, hl⟩
 
-/-! ## no shared mutable state (copying variants) -/
+/-! ## no shared mutable state (copying variants)
 
-/-- The frame theorem. For a copying conversion `k` applied to root `r` of heap `H` (finite depth,
-source form, nothing left out): the result heap `H'` agrees with `H` on every old cell, no cell is
-reachable both from the result and from the input (in `H` or in `H'`), and the result is a tree. -/
+These hold for EVERY option setting (whatever is left out of the copy): the hypotheses are only that
+the input has finite depth and is written in the form the conversion is for. -/
+
+/-- The frame theorem. For a copying conversion `k` applied to root `r` of heap `H`: the result heap
+`H'` agrees with `H` on every old cell, no cell is reachable both from the result and from the input
+(in `H` or in `H'`), and the result is a tree (no cell of it is shared) even if the input was not. -/
 theorem copy_noalias (k : Kind) (hk : k.inPlace = false) (n : Nat) (opt : Opt) (H : Heap) (r : Ref) (t : T)
-    (hoe : opt.omitEmpty = false) (hd : denote n H r = some t) (hp : t.pure k.src = true)
-    (hkp : t.keeps k opt = true) :
+    (hd : denote n H r = some t) (hp : t.pure k.src = true) :
     ∃ H' r', conv k n opt H r = some (H', r') ∧
       (∀ a, Reach H' r' a → ¬ Reach H r a ∧ ¬ Reach H' r a) ∧
       (∀ a, Reach H r a → H'[a]? = H[a]?) ∧
       (∀ a, a < H.length → H'[a]? = H[a]?) ∧
       ∃ S', owns n H' r' = some S' ∧ S'.Nodup := by
-  obtain ⟨H', r', hc, e, _, S', hS', hnd, hge⟩ := copy_spec k hk n opt H r t hoe hd hp hkp
+  obtain ⟨H', r', hc, e, S', hS', hnd, hge⟩ := fresh_spec k hk n opt H r t hd hp
   obtain ⟨S0, hS0⟩ := denote_owns n H r t hd
   have hlt := owns_lt n H r S0 hS0
   refine ⟨H', r', hc, ?_, ?_, fun a ha => e.old ha, S', hS', hnd⟩
@@ -222,13 +224,12 @@ theorem copy_noalias (k : Kind) (hk : k.inPlace = false) (n : Nat) (opt : Opt) (
   · intro a ha
     exact e.old (hlt a (reach_mem_owns ha n S0 hS0))
 
-/-- mutating any cell of the copy never changes the value of the original -/
+/-- mutating any cell of the copy (any new content) never changes the value of the original -/
 theorem mutate_copy_keeps_original (k : Kind) (hk : k.inPlace = false) (n : Nat) (opt : Opt) (H : Heap)
-    (r : Ref) (t : T) (hoe : opt.omitEmpty = false) (hd : denote n H r = some t)
-    (hp : t.pure k.src = true) (hkp : t.keeps k opt = true) :
+    (r : Ref) (t : T) (hd : denote n H r = some t) (hp : t.pure k.src = true) :
     ∃ H' r', conv k n opt H r = some (H', r') ∧
       ∀ (a : Addr) (c : Cell), Reach H' r' a → denote n (H'.set a c) r = some t := by
-  obtain ⟨H', r', hc, e, _, S', hS', _, hge⟩ := copy_spec k hk n opt H r t hoe hd hp hkp
+  obtain ⟨H', r', hc, e, S', hS', _, hge⟩ := fresh_spec k hk n opt H r t hd hp
   obtain ⟨S0, hS0⟩ := denote_owns n H r t hd
   refine ⟨H', r', hc, fun a c ha => ?_⟩
   have h1 : H.length ≤ a := hge a (reach_mem_owns ha n S' hS')
@@ -241,57 +242,53 @@ theorem mutate_copy_keeps_original (k : Kind) (hk : k.inPlace = false) (n : Nat)
   rw [this]
   exact denote_ext e n r t hd
 
-/-- mutating any cell of the original never changes the value of the copy -/
+/-- mutating any cell of the original (any new content) never changes the value of the copy -/
 theorem mutate_original_keeps_copy (k : Kind) (hk : k.inPlace = false) (n : Nat) (opt : Opt) (H : Heap)
-    (r : Ref) (t : T) (hoe : opt.omitEmpty = false) (hd : denote n H r = some t)
-    (hp : t.pure k.src = true) (hkp : t.keeps k opt = true) :
+    (r : Ref) (t : T) (hd : denote n H r = some t) (hp : t.pure k.src = true) :
     ∃ H' r', conv k n opt H r = some (H', r') ∧
-      ∀ (a : Addr) (c : Cell), Reach H r a →
-        denote n (H'.set a c) r' = some (t.toForm k.dst) := by
-  obtain ⟨H', r', hc, _, hd', S', hS', _, hge⟩ := copy_spec k hk n opt H r t hoe hd hp hkp
+      ∀ (a : Addr) (c : Cell), Reach H r a → denote n (H'.set a c) r' = denote n H' r' := by
+  obtain ⟨H', r', hc, _, S', hS', _, hge⟩ := fresh_spec k hk n opt H r t hd hp
   obtain ⟨S0, hS0⟩ := denote_owns n H r t hd
   refine ⟨H', r', hc, fun a c ha => ?_⟩
   have h1 : a < H.length := owns_lt n H r S0 hS0 a (reach_mem_owns ha n S0 hS0)
-  have := (frame (H := H') (H2 := H'.set a c) n r' S' hS' fun b hb =>
+  exact (frame (H := H') (H2 := H'.set a c) n r' S' hS' fun b hb =>
     List.getElem?_set_ne (fun (hab : a = b) => by
       have h2 : H.length ≤ b := hge b hb
       rw [hab] at h1
       exact Nat.lt_irrefl _ (Nat.lt_of_lt_of_le h1 h2))).2
-  rw [this]
-  exact hd'
 
-/-! ### the four copying conversions, options that keep nulls -/
+/-! ### the four copying conversions by name -/
 
-theorem generify_noalias (n : Nat) (opt : Opt) (H : Heap) (r : Ref) (t : T) (ho : KeepsNulls opt)
+/-- `alt.Generify` on simple data -/
+theorem generify_noalias (n : Nat) (opt : Opt) (H : Heap) (r : Ref) (t : T)
     (hd : denote n H r = some t) (hs : t.Simple) :
     ∃ H' r', conv .generify n opt H r = some (H', r') ∧
       (∀ a, Reach H' r' a → ¬ Reach H r a ∧ ¬ Reach H' r a) ∧ (∀ a, Reach H r a → H'[a]? = H[a]?) := by
-  obtain ⟨H', r', hc, h1, h2, _⟩ := copy_noalias .generify rfl n opt H r t ho.2 hd hs
-    (keeps_of_inv keepInv_generify t opt ho.1)
+  obtain ⟨H', r', hc, h1, h2, _⟩ := copy_noalias .generify rfl n opt H r t hd hs
   exact ⟨H', r', hc, h1, h2⟩
 
-theorem simplify_noalias (n : Nat) (opt : Opt) (H : Heap) (r : Ref) (t : T) (hoe : opt.omitEmpty = false)
+/-- `Node.Simplify` on generic data -/
+theorem simplify_noalias (n : Nat) (opt : Opt) (H : Heap) (r : Ref) (t : T)
     (hd : denote n H r = some t) (hs : t.pure .gen = true) :
     ∃ H' r', conv .simplify n opt H r = some (H', r') ∧
       (∀ a, Reach H' r' a → ¬ Reach H r a ∧ ¬ Reach H' r a) ∧ (∀ a, Reach H r a → H'[a]? = H[a]?) := by
-  obtain ⟨H', r', hc, h1, h2, _⟩ := copy_noalias .simplify rfl n opt H r t hoe hd hs
-    (keeps_of_inv keepInv_simplify t opt trivial)
+  obtain ⟨H', r', hc, h1, h2, _⟩ := copy_noalias .simplify rfl n opt H r t hd hs
   exact ⟨H', r', hc, h1, h2⟩
 
-theorem decompose_noalias (n : Nat) (opt : Opt) (H : Heap) (r : Ref) (t : T) (ho : KeepsNulls opt)
+/-- `alt.Dup` = `alt.Decompose` on simple data -/
+theorem decompose_noalias (n : Nat) (opt : Opt) (H : Heap) (r : Ref) (t : T)
     (hd : denote n H r = some t) (hs : t.Simple) :
     ∃ H' r', conv .decompose n opt H r = some (H', r') ∧
       (∀ a, Reach H' r' a → ¬ Reach H r a ∧ ¬ Reach H' r a) ∧ (∀ a, Reach H r a → H'[a]? = H[a]?) := by
-  obtain ⟨H', r', hc, h1, h2, _⟩ := copy_noalias .decompose rfl n opt H r t ho.2 hd hs
-    (keeps_of_inv keepInv_decompose t opt ho)
+  obtain ⟨H', r', hc, h1, h2, _⟩ := copy_noalias .decompose rfl n opt H r t hd hs
   exact ⟨H', r', hc, h1, h2⟩
 
-theorem genDup_noalias (n : Nat) (opt : Opt) (H : Heap) (r : Ref) (t : T) (hoe : opt.omitEmpty = false)
+/-- `Node.Dup` on generic data -/
+theorem genDup_noalias (n : Nat) (opt : Opt) (H : Heap) (r : Ref) (t : T)
     (hd : denote n H r = some t) (hs : t.pure .gen = true) :
     ∃ H' r', conv .genDup n opt H r = some (H', r') ∧
       (∀ a, Reach H' r' a → ¬ Reach H r a ∧ ¬ Reach H' r a) ∧ (∀ a, Reach H r a → H'[a]? = H[a]?) := by
-  obtain ⟨H', r', hc, h1, h2, _⟩ := copy_noalias .genDup rfl n opt H r t hoe hd hs
-    (keeps_of_inv keepInv_genDup t opt trivial)
+  obtain ⟨H', r', hc, h1, h2, _⟩ := copy_noalias .genDup rfl n opt H r t hd hs
   exact ⟨H', r', hc, h1, h2⟩
 
 /-! ## the hypotheses are satisfiable by non-trivial data
